@@ -2466,6 +2466,12 @@ func (h *history) attestMsg(m qmsg) int {
 	}
 	eff := diffFacts(f0, e.facts(t))
 	h.effects = append(h.effects, eff...)
+	for _, x := range eff { // whatever success follow-up the stores show must be THIS message's: its kind, its record
+		if x[0] != int64(b.Kind) || x[1] != int64(b.Key)+1000*int64(b.Chain) {
+			h.run.Violate("C07:effect-on-another-record", fmt.Sprintf("attesting message %d (kind %d, key %d, chain %d) produced the success follow-up (kind %d, record %d) -- the record of another contract / message", m.id, b.Kind, b.Key, b.Chain, x[0], x[1]),
+				map[string]any{"part": "B", "seed": h.run.Seed, "history": append([]string{}, h.log...)})
+		}
+	}
 	sp := h.spawnedSince(before)
 	h.logf("attest id=%d -> class %d (%v) effects=%v spawned=%d", m.id, cls, err, eff, len(sp))
 	run.Count("B.op", "attest")
@@ -2936,6 +2942,15 @@ func runUpgrade(t *testing.T, run *emit.Run) {
 	b.Relayer = e.vals[0].eth.Hex()
 	b.Key = h.compassDeployment(b.Bytecode, 0)
 	id := h.put(b)
+	if r.Intn(3) == 0 {
+		// the stuck deployment is removed (the admin escape hatch) while its message is still queued, and a NEWER compass is
+		// rolled out: the old message's transaction must not be booked on the new contract's deployment record
+		e.evm.DeleteSmartContractDeploymentByContractID(e.ctx, b.Key, chainName)
+		nb := h.p.body(kUploadCompass)
+		newer := h.compassDeployment(nb.Bytecode, 0)
+		h.logf("deployment of contract %d removed, newer compass %d rolled out", b.Key, newer)
+		run.Count("B.upgrade", "superseded")
+	}
 	h.everybodyReports(id, h.rightTx(id, 0, 1), 1)
 	m, _ := h.msgByID(id)
 	cls := h.attestMsg(m)
